@@ -11,8 +11,14 @@
 package main
 
 import (
+	"crypto/sha256"
+	"encoding/hex"
+	"flag"
 	"fmt"
+	"hash"
 	"os"
+	"os/exec"
+	"path/filepath"
 	"sort"
 	"strings"
 	"time"
@@ -60,9 +66,14 @@ type caseRun struct {
 	pendingBlk bool // a candidate's account was (un)blocked since A last recomputed the committee
 	knownShape bool
 	failed     bool
-	gov        bool // governance-focused profile: elected committee, quiet epochs, block/unblock of candidates
+	digest     hash.Hash // of everything replica A showed, block by block
+	gov        bool      // governance-focused profile: elected committee, quiet epochs, block/unblock of candidates
 	lastCmt    string
 }
+
+// childMode: this process only re-runs one case for its parent (second-process replay) and leaves the
+// digest of replica A's observations in <out>/digest.txt.
+var childMode = flag.Bool("child", false, "second-process replay of one case (internal)")
 
 func main() {
 	f := hx.ParseFlags()
@@ -74,7 +85,7 @@ func main() {
 		if !f.Want(k) {
 			continue
 		}
-		c := &caseRun{k: k, f: f, o: o, r: prng.ForCase(f.Seed, k), sched: prng.ForCase(f.Seed^0x5eed5eed, k)}
+		c := &caseRun{k: k, f: f, o: o, r: prng.ForCase(f.Seed, k), sched: prng.ForCase(f.Seed^0x5eed5eed, k), digest: sha256.New()}
 		o.Case(k)
 		err := chainx.Try(func() { c.run() })
 		if err != nil {
@@ -84,6 +95,12 @@ func main() {
 			o.Line("aborted", "aborted")
 		}
 		c.cleanup()
+		dg := hex.EncodeToString(c.digest.Sum(nil))
+		if *childMode {
+			_ = os.WriteFile(filepath.Join(f.Out, "digest.txt"), []byte(dg), 0o644)
+		} else if err == nil && !c.failed && k%4 == 1 {
+			c.secondProcess(dg)
+		}
 	}
 	if o.Counters["case-aborted"] > 0 {
 		fmt.Fprintf(os.Stderr, "%d cases aborted\n", o.Counters["case-aborted"])
@@ -309,7 +326,7 @@ func (c *caseRun) run() {
 		if script == nil && s.Intn(16) < pJunk {
 			c.junk(txs)
 		}
-		if c.gcSleep && h%11 == 0 && h <= 44 {
+		if c.gcSleep && h%11 == 0 && h <= 44 && !*childMode {
 			time.Sleep(1100 * time.Millisecond) // let B's persist timer fire: that is the only trigger of the GC
 			o.Count("B.gc-timer-waits")
 		}
@@ -389,6 +406,9 @@ func (c *caseRun) run() {
 			return
 		}
 		oa, ob := observe(w, c.a.BC, blk), observe(w, c.b.BC, blk)
+		for _, x := range oa {
+			fmt.Fprintf(c.digest, "%d %s=%s\n", h, x.name, x.val)
+		}
 		o.Add("observables-compared", len(oa))
 		for i := range oa {
 			if i >= len(ob) || oa[i].name != ob[i].name || oa[i].val != ob[i].val {
@@ -480,6 +500,35 @@ func neoVotesEvent(aer *state.AppExecResult) bool {
 		}
 	}
 	return false
+}
+
+// secondProcess replays the case in a fresh OS process (own heap layout, hash seeds, scheduler) and compares
+// the digest of replica A's observations: the same blocks must give the same ledger in any process.
+func (c *caseRun) secondProcess(own string) {
+	dir, err := os.MkdirTemp("", "verif-ledger-child-")
+	if err != nil {
+		return
+	}
+	defer os.RemoveAll(dir)
+	cmd := exec.Command(os.Args[0], "-seed", fmt.Sprint(c.f.Seed), "-tier", c.f.Tier, "-only", fmt.Sprint(c.k), "-out", dir, "-child")
+	if c.f.Cases > 0 {
+		cmd.Args = append(cmd.Args, "-cases", fmt.Sprint(c.f.Cases))
+	}
+	out, err := cmd.CombinedOutput()
+	if err != nil {
+		c.o.Count("second-process-failed-to-run")
+		fmt.Fprintf(os.Stderr, "case %d: second process: %v: %s\n", c.k, err, out)
+		return
+	}
+	b, err := os.ReadFile(filepath.Join(dir, "digest.txt"))
+	if err != nil {
+		c.o.Count("second-process-failed-to-run")
+		return
+	}
+	c.o.Count("second-process-replays")
+	if string(b) != own {
+		c.o.Fail("process-nondeterminism", c.k, "replica A fed the same history in a second OS process shows a different ledger: digest %s vs %s [%s] history=%s", own, string(b), c.desc, c.history())
+	}
 }
 
 type panicErr struct{ msg string }
